@@ -87,7 +87,8 @@ class ClassInfo:
         return [c[1] for c in self.mro() if not isinstance(c, ClassInfo)]
 
     def find_method(self, name, after=None):
-        """Resolve a method along the MRO; `after` = class after which to start (super())."""
+        """Resolve a method along the MRO; `after` = class after which to start (super()).  The first class of the MRO that binds
+        the name at all decides what the name is (a property or class attribute of a subclass hides a base class's method)."""
         mro = self.in_repo_mro()
         start = 0
         if after is not None:
@@ -95,6 +96,8 @@ class ClassInfo:
         for c in mro[start:]:
             if name in c.methods:
                 return c.methods[name]
+            if name in c.props or name in c.class_attrs:
+                return None
         return None
 
     def find_prop(self, name, after=None):
@@ -105,13 +108,22 @@ class ClassInfo:
         for c in mro[start:]:
             if name in c.props:
                 return c.props[name]
+            if name in c.methods or name in c.class_attrs:
+                return None
         return None
 
     def find_class_attr(self, name):
         for c in self.in_repo_mro():
             if name in c.class_attrs:
                 return c, c.class_attrs[name]
+            if name in c.props or name in c.methods:
+                return None
         return None
+
+    def all_class_attr_names(self):
+        if getattr(self, "_ca_names", None) is None:
+            self._ca_names = {n for c in self.in_repo_mro() for n in c.class_attrs}
+        return self._ca_names
 
     def is_subclass_of(self, other):
         if isinstance(other, ClassInfo):
@@ -258,6 +270,16 @@ class Program:
         elif isinstance(st, ast.Assign):
             if len(st.targets) == 1 and isinstance(st.targets[0], ast.Name):
                 mod.assigns[st.targets[0].id] = st.value
+            elif len(st.targets) == 1 and isinstance(st.targets[0], (ast.Tuple, ast.List)) and all(isinstance(e, ast.Name) for e in st.targets[0].elts):
+                # A, B, C = range(3)  /  A, B = x, y : each name bound to its own component
+                names, v = [e.id for e in st.targets[0].elts], st.value
+                if isinstance(v, (ast.Tuple, ast.List)) and len(v.elts) == len(names):
+                    for n_, e in zip(names, v.elts):
+                        mod.assigns[n_] = e
+                elif (isinstance(v, ast.Call) and isinstance(v.func, ast.Name) and v.func.id == "range" and len(v.args) == 1 and not v.keywords
+                      and isinstance(v.args[0], ast.Constant) and v.args[0].value == len(names)):
+                    for k_, n_ in enumerate(names):
+                        mod.assigns[n_] = ast.copy_location(ast.Constant(k_), v)
         elif isinstance(st, (ast.If, ast.Try)):
             for b in st.body:
                 self._collect_stmt(mod, b)
